@@ -15,7 +15,10 @@ GROUPS = {
     "dtype_isnone": dict(filter="k_dtype::isnone_", bounded=None),
     "dtype_cast": dict(filter="k_dtype::cast_", bounded=None),
     "dtype_sortcmp": dict(filter="k_dtype::sortcmp_", bounded=None),
-    "agg_bounded": dict(filter="k_agg::bounded_", bounded="BOUNDED: every series of length <= 4 over {null, -3..3} resp. {null, false, true}; a stand-in next to the Verus agg / aggb units, not a proof"),
+    "nulls_bounded": dict(filter="k_agg::bounded_nulls_", bounded="BOUNDED: every logical series of length <= 3 over {null, -2..2} in the NaN and the None encoding, plus one inserted null at every position"),
+    "backend_bounded": dict(filter="k_backend::bounded_", bounded="BOUNDED: 3-4 symbolic i32 elements; Vec, fixed array, VecDeque at head offsets 0..3 of a 4-slot buffer (contiguous and wrapped); ndarray / Polars not compiled"),
+    "unique_bounded": dict(filter="k_cut::bounded_sorted_unique", bounded="BOUNDED: every sorted series of length <= 5 over {0,1,2} with a null block at the head or tail, ascending and descending"),
+    "agg_bounded": dict(filter="k_agg::bounded_agg_", bounded="BOUNDED: every series of length <= 4 over {null, -3..3} resp. {null, false, true}; a stand-in next to the Verus agg / aggb units, not a proof"),
     "gen_range": dict(filter="k_gen::range_", bounded="BOUNDED: a, b, step symbolic i32 within +-2^8; complete over that band, both step directions"),
     "gen_range_wide": dict(filter="k_gen::wide_range_", bounded="BOUNDED: a, b, step symbolic i32 within +-2^12; both step directions"),
     "gen_linspace": dict(filter="k_gen::linspace_", bounded="a, b symbolic i32 within +-2^24, n <= 2^20"),
@@ -135,6 +138,11 @@ def run_harnesses(prop, groups, tier):
             undecided.append(f"kani harness {r['harness']}: {r['covers_total'] - r['covers_sat']} cover(s) unsatisfied (vacuous assumptions?)")
         if r["failed"]:
             fc = re.findall(r"Failed Checks: (.*)", r["text"])
+            # a verdict needs CBMC's result block with at least one failed check: a crash, a kill, memory exhaustion or a
+            # timeout of the back end ("CBMC failed", no `** n of m failed`) decides nothing
+            if r["failed_checks"] == 0 or not fc or "CBMC failed" in r["text"] or "out of memory" in r["text"]:
+                undecided.append(f"kani harness {r['harness']}: back end gave no result ({(r['text'].strip().splitlines() or ['?'])[0][:120]})")
+                continue
             # unwinding / unsupported-feature failures are tool limits, not violations
             if any("unwinding assertion" in x or "not currently supported" in x for x in fc):
                 undecided.append(f"kani harness {r['harness']}: {fc[0]}")
